@@ -475,8 +475,12 @@ class TreeTyper:
                 for x in alts(a):
                     if x.kind == "tree" and nm != "bool":
                         self.err(f"`{txt(e)[:80]}`: {nm}() of a tree ({x.sig()})")
-                    if nm == "str" and x.kind in ("tok", "str"):
-                        outs.append(V("str", path=x.path, names=x.names))   # str(token) == token.value
+                    if nm == "str" and x.kind == "str":
+                        outs.append(V("str", path=x.path, names=x.names))   # str of a str
+                    elif nm == "str" and x.kind == "tok":
+                        # NOT token.value: a Token is a str whose text is fixed at creation, while the conjugation step
+                        # rewrites .value; str(token) of a CDecay-created line is still the source line's name
+                        outs.append(V("str", path=f"text({x.path})", names=x.names))
                     else:
                         outs.append(V(nm, path=f"{nm}({x.sig()})"))
                 return union(outs)
